@@ -44,22 +44,32 @@ TIE = {
               'MalVerif.Py.TieVisitorResolve', 'MalVerif.Py.TieVisitorClause', 'MalVerif.Py.TieVisitorExpr',
               'MalVerif.Py.TieVisitorTtc', 'MalVerif.Py.TieVisitorAssoc', 'MalVerif.Py.TieVisitorAssocs',
               'MalVerif.Py.TieVisitorMal', 'MalVerif.Py.TieVisitorEq', 'MalVerif.Py.TieVisitorTop',
+              'MalVerif.Py.TieVisitorPos', 'MalVerif.Py.TieVisitorStepAux', 'MalVerif.Py.TieVisitorStepNode',
+              'MalVerif.Py.TieVisitorStepStages', 'MalVerif.Py.TieVisitorStep', 'MalVerif.Py.TieVisitorAsset',
+              'MalVerif.Py.TieVisitorCategory', 'MalVerif.Py.TieVisitorDecls',
+              'MalVerif.Py.TieVisitorLex', 'MalVerif.Py.TieVisitorFile',
               'MalVerif.PropsGen.C04', 'MalVerif.PropsGen.C17'],
     'needs': {
         'C04': ['MalVerif.Py.TieVisitorTop', 'MalVerif.Py.TieVisitorTtc', 'MalVerif.Py.TieVisitorAssoc',
                 'MalVerif.Py.TieVisitorAssocs', 'MalVerif.Py.TieVisitorMal', 'MalVerif.Py.TieVisitorEq',
-                'MalVerif.PropsGen.C04'],
+                'MalVerif.Py.TieVisitorStepNode', 'MalVerif.Py.TieVisitorStepStages', 'MalVerif.Py.TieVisitorStep',
+                'MalVerif.Py.TieVisitorAsset', 'MalVerif.Py.TieVisitorCategory', 'MalVerif.Py.TieVisitorDecls',
+                'MalVerif.Py.TieVisitorFile', 'MalVerif.PropsGen.C04'],
         'C17': ['MalVerif.Py.TieVisitorAssoc', 'MalVerif.Py.TieVisitorAssocs', 'MalVerif.Py.TieVisitorMal',
-                'MalVerif.Py.TieVisitorEq', 'MalVerif.PropsGen.C04', 'MalVerif.PropsGen.C17'],
+                'MalVerif.Py.TieVisitorEq', 'MalVerif.Py.TieVisitorStepNode', 'MalVerif.Py.TieVisitorStepStages',
+                'MalVerif.Py.TieVisitorStep', 'MalVerif.Py.TieVisitorAsset', 'MalVerif.Py.TieVisitorCategory',
+                'MalVerif.Py.TieVisitorDecls', 'MalVerif.Py.TieVisitorFile', 'MalVerif.PropsGen.C04', 'MalVerif.PropsGen.C17'],
     },
     'sources': {
-        'C04': 'language/compiler/mal_visitor.py: every method of malVisitor is translated (self.compiler.compile is a parameter) and executed '
-               'in the correspondence; proved equal to the model: visitExpr, visitParts, visitPart, _resolve_part_ID_type, visitSetop, visitType, '
+        'C04': 'language/compiler/mal_visitor.py: every method of malVisitor is translated (self.compiler.compile is a parameter), executed '
+               'in the correspondence, and proved equal to the model: visitExpr, visitParts, visitPart, _resolve_part_ID_type, visitSetop, visitType, '
                'visitVarsubst, visitPrecondition, visitReaches, visitVariable, visitTtc, visitTtcexpr, visitTtcterm, visitTtcfact, visitTtcatom, '
-               'visitTtcdist, visitNumber, visitMeta, visitTag, visitCias, visitCia, visitSteptype, visitInclude, visitDefine, visitField, '
-               'visitLinkname, visitAssociation, _post_process_multitudes, visitAssociations, visitMal (given the declaration visits); '
+               'visitTtcdist, visitNumber, visitMeta, visitTag, visitCias, visitCia, visitSteptype, visitStep, visitAsset, visitCategory, visitInclude, '
+               'visitDefine, visitField, visitLinkname, visitAssociation, _post_process_multitudes, visitAssociations, visitMal — whole files: '
+               'translated visitor on the tree of the model tree builder = rendered compileFile; '
                'language/compiler/mal_parser.py: the accessor methods of the context classes (tables)',
-        'C17': 'language/compiler/mal_visitor.py: visitMal (a failing include makes the whole visit fail), visitInclude',
+        'C17': 'language/compiler/mal_visitor.py: every method (a malformed file anywhere on the include path makes the translated compile '
+               'raise: visitMal propagates the failure of self.compiler.compile; transfer of parse_exact / reject_iff through the whole-file tie)',
     },
 }
 
